@@ -12,7 +12,7 @@ SPEC = {
     "known_classes": {1: "float_seconds_roundup", 2: "option_over_248_bytes"},
     "rule": "corpus (one witness per known-finding class, the repaired defects, field limits) then the C01 generator biased to extreme durations "
             "(1ns, sub-second, 2^24 s and 2^31 s with fractions around the float round-up window, 4294967294.999999xxx s, infinite, out-of-range and "
-            "negative strings), arbitrary pref64 CIDRs (valid lengths, invalid lengths, IPv4, host bits), option sizes around 248 bytes (14..17 and "
+            "negative strings), arbitrary pref64 CIDRs (every prefix length 0..128 with the canonical address for that length -- a fixed stream c03-pref64-len-N and a random branch --, IPv4, host bits), option sizes around 248 bytes (14..17 and "
             "126..128 RDNSS servers, large DNSSL lists, URIs of 245..247 and up to 282 bytes), MAC of 8 bytes, clock before the epoch. "
             "Non-trivial: accepted configuration whose RA was built and has at least one option; distinct by canonical input.",
     "nontrivial": lambda c: bool(c.get("coq")) and c.get("input", {}).get("plugins", 0) > 0 and c.get("observed") not in ("build error",),
